@@ -105,7 +105,19 @@ def srcNode : Node → Bool
   | .optCall _ as _ => as.all isArgN
   | .array _ sp => !sp.isDummy
   | .tpl _ qs _ => qs.all inertT
+  | .block ss sp =>
+    -- what is inside a block lies inside its position; a block without position (the one the rewriter wraps an
+    -- arrow body in) holds no declaration
+    if sp.isDummy then ss.all (fun s => match s with | .other k _ _ _ => k != "VariableDeclaration" | _ => false)
+    else ss.all (fun s => s.span != sp)
   | _ => true
+
+def noOptK : Node → Bool
+  | .optChain .. => false
+  | _ => true
+
+/-- the tree has no optional chain -/
+def noOpt (n : Node) : Bool := Node.all noOptK n
 
 /-- the tree is a well-formed source tree -/
 def srcOk (n : Node) : Bool := Node.all srcNode n
